@@ -82,7 +82,7 @@ func (g *Gen) mayPanic(f *Frame, what string) {
 	g.declare(p, "Bool")
 	pv := g.fresh("pval")
 	g.declare(pv, "Iface")
-	f.panics = append(f.panics, Exit{en: g.defFresh("pen", "Bool", and(f.en, p)), st: f.st.clone(), pval: pv, ndefers: len(f.defers)})
+	f.panics = append(f.panics, Exit{en: g.defFresh("pen", "Bool", and(f.en, p)), st: f.st.clone(), pval: pv, ndefers: len(f.defers), blk: f.curBlock})
 	f.en = g.defFresh(f.prefix+"en", "Bool", and(f.en, not(p)))
 }
 
@@ -246,7 +246,9 @@ func (g *Gen) callStatic(f *Frame, callee *ssa.Function, args []Arg, binds []Arg
 		}
 	}
 	if !rec && len(g.stack) < g.maxInline && g.inlineOK(callee) {
-		return g.inline(f, callee, args, binds, ins)
+		if rs, ok := g.tryInline(f, callee, args, binds, ins); ok {
+			return rs
+		}
 	}
 	g.havocked[key] = true
 	g.havocAll(f)
@@ -286,6 +288,7 @@ func (g *Gen) inline(f *Frame, callee *ssa.Function, args []Arg, binds []Arg, in
 	// propagate panics
 	for _, p := range cf.panics {
 		p.ndefers = len(f.defers)
+		p.blk = f.curBlock
 		f.panics = append(f.panics, p)
 	}
 	if len(cf.exits) == 0 {
@@ -338,6 +341,13 @@ func (g *Gen) encodeFrame(f *Frame, en string, st *State) {
 		var rec []Exit
 		for k := p.ndefers - 1; k >= 0; k-- {
 			d := f.defers[k]
+			if p.blk != nil && d.Block() != p.blk && !d.Block().Dominates(p.blk) {
+				// this defer statement was not executed on the way to the panic
+				if reaches(d.Block(), p.blk) {
+					unsupp("defer registered on some but not all paths to a panic")
+				}
+				continue
+			}
 			var nalive, nrec []Exit
 			for _, a := range alive {
 				f.en, f.st = a.en, a.st.clone()
@@ -420,15 +430,39 @@ func (g *Gen) runDeferred(f *Frame, d *ssa.Defer) {
 	}
 }
 
-func (g *Gen) instrDefer(f *Frame, i *ssa.Defer) {
-	if i.Block().Index != 0 {
-		// conservatively require defers in the entry block so that registration is unconditional
-		unsupp("defer outside entry block")
+func (g *Gen) instrDefer(f *Frame, i *ssa.Defer) {}
+
+// reaches: there is a path from block a to block b
+func reaches(a, b *ssa.BasicBlock) bool {
+	seen := map[int]bool{}
+	var dfs func(x *ssa.BasicBlock) bool
+	dfs = func(x *ssa.BasicBlock) bool {
+		if x == b {
+			return true
+		}
+		if seen[x.Index] {
+			return false
+		}
+		seen[x.Index] = true
+		for _, s := range x.Succs {
+			if dfs(s) {
+				return true
+			}
+		}
+		return false
 	}
+	return dfs(a)
 }
 
 func (g *Gen) instrRunDefers(f *Frame, i *ssa.RunDefers) {
 	for k := len(f.defers) - 1; k >= 0; k-- {
+		d := f.defers[k]
+		if d.Block() != i.Block() && !d.Block().Dominates(i.Block()) {
+			if reaches(d.Block(), i.Block()) {
+				unsupp("defer registered on some but not all paths to a return")
+			}
+			continue
+		}
 		g.pctx = append(g.pctx, nil)
 		g.runDeferred(f, f.defers[k])
 		g.pctx = g.pctx[:len(g.pctx)-1]
@@ -449,8 +483,26 @@ func (g *Gen) applyContract(f *Frame, c *Contract, names []string, args []Arg, s
 		g.oblige(fmt.Sprintf("pre@%s#%d@%s", label, r.Idx, sanitize(f.prefix+insName(ins))), "pre", f.en, t, r.Text, ins.Pos())
 	}
 	old := f.st.clone()
+	// recursive call: the function's callsite clauses must hold here, in the caller's own terms
+	if g.top != nil && g.topC != nil && len(g.topC.Callsite) > 0 && f.parent == nil {
+		for _, cs := range g.topC.Callsite {
+			if cs.Target == "" && g.topC != c {
+				continue
+			}
+			if cs.Target != "" && !strings.HasSuffix(c.Key, "."+cs.Target) {
+				continue
+			}
+			g.oblige(fmt.Sprintf("rec#%d@%s", cs.Idx, sanitize(insName(ins))), "pre", f.en, g.clause(f, cs, f.st, nil), "at the recursive call: "+cs.Text, ins.Pos())
+		}
+	}
 	if c.ModAll {
+		g.calleeKeeps = map[string]bool{}
+		for _, k := range g.keptComps(env, c) {
+			g.calleeKeeps[k] = true
+		}
 		g.havocAll(f)
+		g.calleeKeeps = nil
+		g.keepComps(f, env, c, old)
 	} else {
 		nowOld := g.now(f.st)
 		// all targets are evaluated in the pre-call state, then havocked
@@ -571,4 +623,85 @@ func (g *Gen) preservedFormula(env *Env, pc *Clause, old, nw *State) string {
 	before := env.withState(old).tr(pc.Expr)
 	after := env.withState(nw).tr(pc.Expr)
 	return fmt.Sprintf("(= %s %s)", after.S, before.S)
+}
+
+// tryInline inlines the callee; if its body uses a construct outside the supported subset the partial encoding
+// is discarded and the caller falls back to treating the call as having unknown effects.
+func (g *Gen) tryInline(f *Frame, callee *ssa.Function, args []Arg, binds []Arg, ins ssa.Instruction) (rs []Term, ok bool) {
+	bodyLen := g.body.Len()
+	nObl := len(g.obls)
+	declared := make(map[string]bool, len(g.declared))
+	for k, v := range g.declared {
+		declared[k] = v
+	}
+	en, st := f.en, f.st.clone()
+	nPanics, nStack := len(f.panics), len(g.stack)
+	sN, aN, fN := g.safetyN, g.arithN, g.frameN
+	defer func() {
+		if r := recover(); r != nil {
+			u, isU := r.(unsupported)
+			if !isU {
+				panic(r)
+			}
+			txt := g.body.String()[:bodyLen]
+			g.body.Reset()
+			g.body.WriteString(txt)
+			g.obls = g.obls[:nObl]
+			g.declared = declared
+			f.en, f.st = en, st
+			f.panics = f.panics[:nPanics]
+			g.stack = g.stack[:nStack]
+			g.safetyN, g.arithN, g.frameN = sN, aN, fN
+			g.trusted["callee "+funcKey(callee)+" is outside the supported subset ("+u.msg+"): treated as a call with unknown effects"] = true
+			rs, ok = nil, false
+		}
+	}()
+	return g.inline(f, callee, args, binds, ins), true
+}
+
+// keepComps: components of the kept types are not touched by a "modifies *" callee.
+func (g *Gen) keepComps(f *Frame, env *Env, c *Contract, old *State) {
+	for _, k := range g.keptComps(env, c) {
+		f.st.comp[k] = g.get(old, k)
+	}
+}
+
+func (g *Gen) keptComps(env *Env, c *Contract) []string {
+	var out []string
+	for _, ts := range c.Keeps {
+		e, err := parseContractExpr(ts)
+		if err != nil {
+			cerr("keeps %q: %v", ts, err)
+		}
+		var t types.Type
+		if se, ok := e.(*ast.SelectorExpr); ok {
+			// keeps Struct.field (or pkg.Struct.field): the field component of that struct type
+			if st := env.tryResolveType(se.X); st != nil && isStruct(st) {
+				u := types.Unalias(st).Underlying().(*types.Struct)
+				for k := 0; k < u.NumFields(); k++ {
+					if u.Field(k).Name() == se.Sel.Name {
+						cmp, _, _ := g.fieldComp(st, k)
+						out = append(out, cmp)
+					}
+				}
+				continue
+			}
+		}
+		if mt, ok := e.(*ast.MapType); ok {
+			t = types.NewMap(env.resolveType(mt.Key), env.resolveType(mt.Value))
+		} else {
+			t = env.resolveType(e)
+		}
+		switch u := types.Unalias(t).Underlying().(type) {
+		case *types.Map:
+			a, b, cc, _, _ := g.mapComps(u)
+			out = append(out, a, b, cc)
+		case *types.Slice:
+			cmp, _ := g.elemComp(u.Elem())
+			out = append(out, cmp)
+		default:
+			cerr("keeps: %s is not a map or slice type", ts)
+		}
+	}
+	return out
 }
